@@ -250,3 +250,159 @@ def install(w):
         )
     )
 
+
+    w.add_contract(
+        Contract(
+            "fakesnow.transforms.json_extract_precedence",
+            params={"expression": E},
+            requires=[],
+            result=E,
+            modifies=["*.parent", "$ghost:$treever"],
+            ensures={
+                # every JSON path extraction, wherever it stands (operand of any operator, predicate, function argument), is parenthesised
+                # so that no DuckDB operator can re-associate it; nothing else is touched
+                "C11.precedence.wraps": "implies(isinstance(expression, (exp.JSONExtract, exp.JSONExtractScalar)), is_fresh(result) and cls_is(result, exp.Paren) and arg(result, 'this') is expression)",
+                "C11.precedence.else_untouched": "implies(not isinstance(expression, (exp.JSONExtract, exp.JSONExtractScalar)), result is expression)",
+            },
+            props=["C11"],
+        )
+    )
+
+    RR = "(isinstance(expression, exp.RegexpReplace) and isinstance(arg(expression, 'expression'), exp.Literal))"
+    w.add_contract(
+        Contract(
+            "fakesnow.transforms.regex_replace",
+            params={"expression": E},
+            # field shape (A-SQLGLOT 1): a Literal's `this` is a str
+            requires=[f"implies({RR}, isinstance(arg(arg(expression, 'expression'), 'this'), str))"],
+            result=E,
+            modifies=["expression.args.$dmap", "expression.args.$dhas", "expression.args.$klen", "expression.args.$kel", "*.parent", "$ghost:$treever"],
+            raises={NotImplementedError: {"when": f"old({RR}) and old(dict_len(expression.args)) > 3", "ensures": {}, "modifies": []}},
+            ensures={
+                "C10.regex_replace.same_node": "result is expression",
+                # the long forms (<position>, <occurrence>, <parameters>) are rejected, never answered: what is answered has at most
+                # subject, pattern and replacement, is global, and replaces by '' when no replacement is given
+                "C10.regex_replace.global": f"implies(old({RR}), isinstance(arg(result, 'modifiers'), exp.Literal) and arg(arg(result, 'modifiers'), 'this') == 'g')",
+                "C10.regex_replace.default_replacement": f"implies(old({RR}) and not old(bool(arg(expression, 'replacement'))), isinstance(arg(result, 'replacement'), exp.Literal) and arg(arg(result, 'replacement'), 'this') == '')",
+                "C10.regex_replace.else_untouched": f"implies(not old({RR}), dict_unchanged(expression.args))",
+            },
+            props=["C10"],
+        )
+    )
+
+    FV = ("(isinstance(expression, exp.Cast) and isinstance(arg(expression, 'this'), exp.Column) and upper(node_name(arg(expression, 'this'))) == 'VALUE' "
+          "and arg(arg(expression, 'to'), 'this') in (exp.DataType.Type.VARCHAR, exp.DataType.Type.TEXT) "
+          "and ancestor_select(expression) is not None and find_explode(ancestor_select(expression)) is not None)")
+    w.add_contract(
+        Contract(
+            "fakesnow.transforms.flatten_value_cast_as_varchar",
+            params={"expression": E},
+            requires=["implies(isinstance(expression, exp.Cast), isinstance(arg(expression, 'to'), exp.Expression))"],
+            result=E,
+            modifies=["*.parent", "$ghost:$treever"],
+            ensures={
+                # VALUE::varchar of a flattened array is the raw (unquoted) text whenever the enclosing SELECT contains the flatten -
+                # wherever in that SELECT it sits (first FROM item, join, subquery)
+                "C11.flatten_text.rewrites": f"implies(old({FV}), is_fresh(result) and cls_is(result, exp.JSONExtractScalar) and arg(result, 'this') is old(arg(expression, 'this')) and isinstance(arg(result, 'expression'), exp.JSONPath))",
+                "C11.flatten_text.else_untouched": f"implies(not old({FV}), result is expression)",
+            },
+            props=["C11"],
+        )
+    )
+
+    w.add_contract(
+        Contract(
+            "fakesnow.transforms.float_to_double",
+            params={"expression": E},
+            requires=[],
+            result=E,
+            modifies=["expression.args.$dmap", "expression.args.$dhas", "expression.args.$klen", "expression.args.$kel", "$ghost:$treever"],
+            ensures={
+                "C01.float.same_node": "result is expression",
+                # Snowflake's FLOAT family is 64 bit: a FLOAT type is stored as DOUBLE; every other type is left alone
+                "C01.float.double": "implies(old(isinstance(expression, exp.DataType) and arg(expression, 'this') == exp.DataType.Type.FLOAT), arg(result, 'this') == exp.DataType.Type.DOUBLE)",
+                "C01.float.else_unchanged": "implies(not old(isinstance(expression, exp.DataType) and arg(expression, 'this') == exp.DataType.Type.FLOAT), dict_unchanged(expression.args))",
+            },
+            props=["C01"],
+        )
+    )
+
+    SEMI = "(isinstance(expression, exp.DataType) and arg(expression, 'this') in (exp.DataType.Type.ARRAY, exp.DataType.Type.OBJECT, exp.DataType.Type.VARIANT))"
+    w.add_contract(
+        Contract(
+            "fakesnow.transforms.semi_structured_types",
+            params={"expression": E},
+            requires=[],
+            result=E,
+            modifies=[],
+            ensures={
+                # VARIANT / OBJECT / ARRAY columns are stored as JSON documents; every other type is left alone, the input is not changed
+                "C01.semi.json": f"implies(old({SEMI}), is_fresh(result) and isinstance(result, exp.DataType) and arg(result, 'this') == exp.DataType.Type.JSON)",
+                "C01.semi.else_untouched": f"implies(not old({SEMI}), result is expression)",
+                "C01.semi.input_unchanged": "arg(expression, 'this') == old(arg(expression, 'this'))",
+            },
+            props=["C01", "C11"],
+        )
+    )
+    TN = "(isinstance(expression, exp.DataType) and arg(expression, 'this') == exp.DataType.Type.TIMESTAMPNTZ)"
+    w.add_contract(
+        Contract(
+            "fakesnow.transforms.timestamp_ntz",
+            params={"expression": E},
+            requires=[],
+            result=E,
+            modifies=[],
+            ensures={
+                "C01.timestamp_ntz.timestamp": f"implies(old({TN}), is_fresh(result) and cls_is(result, exp.DataType) and arg(result, 'this') == exp.DataType.Type.TIMESTAMP)",
+                "C01.timestamp_ntz.else_untouched": f"implies(not old({TN}), result is expression)",
+            },
+            props=["C01"],
+        )
+    )
+
+    IDX = "seq_at(node_expressions(expression), 0)"
+    BR = (f"(isinstance(expression, exp.Bracket) and seq_len(node_expressions(expression)) == 1 and isinstance({IDX}, exp.Literal) and bool(arg({IDX}, 'this')))")
+    w.add_contract(
+        Contract(
+            "fakesnow.transforms.indices_to_json_extract",
+            params={"expression": E},
+            # field shapes (A-SQLGLOT 1): a Literal's `this` is a str, its `is_string` a bool or absent
+            requires=[f"implies(isinstance(expression, exp.Bracket) and seq_len(node_expressions(expression)) == 1 and isinstance({IDX}, exp.Literal), "
+                      f"isinstance(arg({IDX}, 'this'), str) and (arg({IDX}, 'is_string') is None or isinstance(arg({IDX}, 'is_string'), bool)))"],
+            result=E,
+            modifies=["*.parent", "$ghost:$treever"],
+            ensures={
+                # v['k'] selects key k (path $.k), v[n] selects element n (path $[n]) of the same base expression
+                "C11.index.key": f"implies(old({BR}) and old(bool(arg({IDX}, 'is_string'))), is_fresh(result) and cls_is(result, exp.JSONExtract) and arg(result, 'this') is old(arg(expression, 'this')) "
+                f"and node_name(arg(result, 'expression')) == '$.' + old(arg({IDX}, 'this')))",
+                "C11.index.position": f"implies(old({BR}) and not old(bool(arg({IDX}, 'is_string'))), is_fresh(result) and cls_is(result, exp.JSONExtract) and arg(result, 'this') is old(arg(expression, 'this')) "
+                f"and node_name(arg(result, 'expression')) == '$[' + old(arg({IDX}, 'this')) + ']')",
+                "C11.index.else_untouched": f"implies(not old({BR}), result is expression)",
+            },
+            props=["C11"],
+        )
+    )
+
+    from pyvc.types import TupleT
+
+    F_, P_, S_ = "arg(e, 'format')", "arg(e, 'precision')", "arg(e, 'scale')"
+    ISFMT = f"(bool({F_}) and isinstance({F_}, exp.Literal) and bool(arg({F_}, 'is_string')))"
+    w.add_contract(
+        Contract(
+            "fakesnow.transforms._get_to_number_args",
+            params={"e": exp.ToNumber},
+            # field shapes (A-SQLGLOT 1): the optional arguments are nodes or absent
+            requires=[f"{F_} is None or isinstance({F_}, exp.Expression)", f"{P_} is None or isinstance({P_}, exp.Expression)", f"{S_} is None or isinstance({S_}, exp.Expression)",
+                      f"implies(isinstance({F_}, exp.Expression), arg({F_}, 'is_string') is None or isinstance(arg({F_}, 'is_string'), bool))"],
+            result=TupleT(items=[Opt(E), Opt(E), Opt(E)]),
+            modifies=[],
+            ensures={
+                # TO_NUMBER(expr [, '<format>'] [, precision [, scale]]): a string second argument is the format, a numeric one the precision
+                "C10.to_number.format": f"(result[0] is old({F_})) if old({ISFMT}) else (result[0] is None)",
+                "C10.to_number.with_format": f"implies(old({ISFMT}), (result[1] is old({P_}) if old(bool({P_})) else result[1] is None) and (result[2] is old({S_}) if old(bool({P_}) and bool({S_})) else result[2] is None))",
+                "C10.to_number.shifted": f"implies(old(bool({F_})) and not old({ISFMT}), result[1] is old({F_}) and (result[2] is old({P_}) if old(bool({P_})) else result[2] is None))",
+                "C10.to_number.no_second": f"implies(not old(bool({F_})), (result[1] is old({P_}) if old(bool({P_})) else result[1] is None) and (result[2] is old({S_}) if old(bool({P_}) and bool({S_})) else result[2] is None))",
+            },
+            props=["C10"],
+        )
+    )
